@@ -22,9 +22,12 @@ package c18
 // (a concurrent map access in firstEvent is a fatal error of the Go runtime: crash_sigs in meta/C18.json).
 
 import (
+	"bytes"
 	"context"
 	"encoding/binary"
 	"fmt"
+	"os"
+	osexec "os/exec"
 	"strconv"
 	"strings"
 	"sync"
@@ -160,6 +163,33 @@ func runTw(window time.Duration, toks []twTok) (out []string, epochs [][]item, e
 }
 
 func execTW(w []string) (res h.Result) {
+	if os.Getenv("VERIF_C18_CHILD") == "" {
+		// an unguarded access to firstEvent's map is a FATAL error of the Go runtime (no recover): run the case in a child
+		// process, so that the death is an observation of this case and the correspondence run goes on
+		cmd := osexec.Command(os.Args[0], "exec", "C18")
+		cmd.Env = append(os.Environ(), "VERIF_C18_CHILD=1")
+		cmd.Stdin = strings.NewReader(strings.Join(w, " ") + "\n")
+		var out, errb bytes.Buffer
+		cmd.Stdout, cmd.Stderr = &out, &errb
+		res.Class, res.Nontrivial = "tw", true
+		if err := cmd.Run(); err != nil {
+			res.Impl = "process-died"
+			res.Class = "tw-died"
+			why := h.OneLine(firstPanicLine(errb.String()))
+			if strings.Contains(errb.String(), "concurrent map") {
+				res.Oracle = "firstEvent-concurrent-map-access: the node process dies while the expiry timers of firstEvent fire: " + why
+			} else {
+				res.Oracle = "process-died-elsewhere: " + why
+			}
+			return
+		}
+		f := strings.SplitN(strings.TrimRight(out.String(), "\n"), "\t", 2)
+		res.Impl = f[0]
+		if len(f) > 1 {
+			res.Oracle = f[1]
+		}
+		return
+	}
 	twMu.Lock()
 	defer twMu.Unlock()
 	ms, _ := strconv.Atoi(w[1])
